@@ -2,7 +2,7 @@
 import concurrent.futures
 import json
 
-from .. import common, gen, coqfmt
+from .. import common, gen, coqfmt, scen
 from ..common import gallina_str, gallina_list
 
 HEADER = "From CV Require Import Base.Str Apath Entry Codec Tree Corr.Run.\nLocal Open Scope N_scope.\n"
@@ -193,6 +193,31 @@ Definition results : list N := """ + gallina_list(defs) + ".\nEval vm_compute in
                 agreed += nums[0]
     ctx.layer("L2-walk+codec", agreed, len(items))
     # ---- L4: init, backup and restore as programs over storage (restore's reads as a set)
+    # the destination side: Dest.restore_into on the version's listing vs the restored tree
+    from .. import destmodel
+    rows, meta = [], []
+    for c in cases:
+        r = res.get(c["id"])
+        if r is None or any(isinstance(x, dict) and (x.get("panic") or x.get("result") == "err") for x in r):
+            continue
+        lst, rs = r[-4], r[-2]
+        if lst.get("result") != "ok" or rs.get("result") != "ok" or not rs.get("tree"):
+            continue
+        rows.append(destmodel.row(False, None, lst["value"], scen.tree_file_bytes(c["tree"]), rs["tree"], len(rs.get("monitor_errors") or []), False, True))
+        meta.append(c)
+    if rows:
+        nums, txt = destmodel.evaluate("C01_dest", rows)
+        if nums is None:
+            ctx.corr_fail("L2", "Dest.restore_into evaluation failed: " + txt, {})
+        else:
+            ok_n = 0
+            for c, code in zip(meta, nums):
+                if code == 0:
+                    ok_n += 1
+                else:
+                    ctx.corr_fail("L2", f"Dest.restore_into and restore differ on the listing of a complete version (code {code}: {destmodel.CODES})",
+                                  {"tree": c["tree"], "opts": c["opts"], "steps": c["steps"]})
+            ctx.layer("L2-destination", ok_n, len(meta))
     from .. import l4
     hs = []
     for c in cases[:: (2 if quick else 4)]:
